@@ -448,6 +448,33 @@ def check_forms(res):
                     continue
                 if got != want:
                     msgs.append(("forms", "order_stats('r', p=%g, c=%g, n=%d) given as %s is %s; with a Python int %s" % (p, c, n, nm, got, want)))
+    # array arguments in any memory layout (reversed views, transposed / Fortran-ordered 2-D arrays): entry [i, j] of the
+    # result belongs to entry [i, j] of the arguments; the caller's arrays are never modified
+    rr = np.array([[1, 2, 3], [4, 6, 9]])
+    nn = np.array([[100, 300, 500], [700, 900, 1200]])
+    layouts = {"C": lambda a: np.ascontiguousarray(a), "F": lambda a: np.asfortranarray(a), "T-view": lambda a: np.ascontiguousarray(a.T).T,
+               "reversed": lambda a: np.ascontiguousarray(a[::-1, ::-1])[::-1, ::-1]}
+    for p, c in ((0.99, 0.9), (0.9, 0.5)):
+        want = {"c": np.array([[stats.order_stats("c", p=p, n=int(nn[i, j]), r=int(rr[i, j])) for j in range(3)] for i in range(2)]),
+                "n": np.array([[stats.order_stats("n", p=p, c=c, r=int(rr[i, j])) for j in range(3)] for i in range(2)]),
+                "r": np.array([[stats.order_stats("r", p=p, c=c, n=int(nn[i, j])) for j in range(3)] for i in range(2)]),
+                "p": np.array([[stats.order_stats("p", c=c, n=int(nn[i, j]), r=int(rr[i, j])) for j in range(3)] for i in range(2)])}
+        for lname, lay in layouts.items():
+            r_, n_ = lay(rr), lay(nn)
+            rs, ns_ = r_.copy(), n_.copy()
+            res.ev("forms/layout/%s" % lname)
+            try:
+                got = {"c": stats.order_stats("c", p=p, n=n_, r=r_), "n": stats.order_stats("n", p=p, c=c, r=r_),
+                       "r": stats.order_stats("r", p=p, c=c, n=n_), "p": stats.order_stats("p", c=c, n=n_, r=r_)}
+            except Exception as e:  # noqa
+                msgs.append(("forms", "order_stats with %s-layout array arguments raised %r" % (lname, e)))
+                continue
+            for which in "cnrp":
+                g = np.asarray(got[which], float)
+                if g.shape != (2, 3) or not np.allclose(g, want[which], rtol=1e-12, atol=0):
+                    msgs.append(("forms", "order_stats(%r, p=%g, c=%g) with %s-layout array arguments is %s; entry by entry it should be %s" % (which, p, c, lname, g.tolist(), want[which].tolist())))
+            if not (np.array_equal(r_, rs) and np.array_equal(n_, ns_)):
+                msgs.append(("forms", "order_stats modified its array arguments (%s layout): r %s -> %s" % (lname, rs.tolist(), r_.tolist())))
     return msgs
 
 
@@ -493,33 +520,6 @@ def check_call_history(res, maxlen):
                 return msgs
     res.states += len(HIST_MENU) ** min(maxlen, 2)
     res.ev("call-history", n=0)
-    # array arguments in any memory layout (reversed views, transposed / Fortran-ordered 2-D arrays): entry [i, j] of the
-    # result belongs to entry [i, j] of the arguments; the caller's arrays are never modified
-    rr = np.array([[1, 2, 3], [4, 6, 9]])
-    nn = np.array([[100, 300, 500], [700, 900, 1200]])
-    layouts = {"C": lambda a: np.ascontiguousarray(a), "F": lambda a: np.asfortranarray(a), "T-view": lambda a: np.ascontiguousarray(a.T).T,
-               "reversed": lambda a: np.ascontiguousarray(a[::-1, ::-1])[::-1, ::-1]}
-    for p, c in ((0.99, 0.9), (0.9, 0.5)):
-        want = {"c": np.array([[stats.order_stats("c", p=p, n=int(nn[i, j]), r=int(rr[i, j])) for j in range(3)] for i in range(2)]),
-                "n": np.array([[stats.order_stats("n", p=p, c=c, r=int(rr[i, j])) for j in range(3)] for i in range(2)]),
-                "r": np.array([[stats.order_stats("r", p=p, c=c, n=int(nn[i, j])) for j in range(3)] for i in range(2)]),
-                "p": np.array([[stats.order_stats("p", c=c, n=int(nn[i, j]), r=int(rr[i, j])) for j in range(3)] for i in range(2)])}
-        for lname, lay in layouts.items():
-            r_, n_ = lay(rr), lay(nn)
-            rs, ns_ = r_.copy(), n_.copy()
-            res.ev("forms/layout/%s" % lname)
-            try:
-                got = {"c": stats.order_stats("c", p=p, n=n_, r=r_), "n": stats.order_stats("n", p=p, c=c, r=r_),
-                       "r": stats.order_stats("r", p=p, c=c, n=n_), "p": stats.order_stats("p", c=c, n=n_, r=r_)}
-            except Exception as e:  # noqa
-                msgs.append(("forms", "order_stats with %s-layout array arguments raised %r" % (lname, e)))
-                continue
-            for which in "cnrp":
-                g = np.asarray(got[which], float)
-                if g.shape != (2, 3) or not np.allclose(g, want[which], rtol=1e-12, atol=0):
-                    msgs.append(("forms", "order_stats(%r, p=%g, c=%g) with %s-layout array arguments is %s; entry by entry it should be %s" % (which, p, c, lname, g.tolist(), want[which].tolist())))
-            if not (np.array_equal(r_, rs) and np.array_equal(n_, ns_)):
-                msgs.append(("forms", "order_stats modified its array arguments (%s layout): r %s -> %s" % (lname, rs.tolist(), r_.tolist())))
     return msgs
 
 
